@@ -289,6 +289,60 @@ theorem oversize_cases (k : Codec) (c : Option Compression) (tr : Bool) :
   · intro ty ss vs cn sc ts l hl h; apply oversize_refused_frame; intro hr
     have := (hr.2.2.2 _ hl).1; omega
 
+/-! ### BATCH built through `RawBatchValuesAdapter` (typed rows + per-statement contexts; the session's path) -/
+
+/-- `SerializedRequest::make` is the same function whether the body comes from a `Req` or from the adapter path. -/
+theorem encodeReq_eq (k : Codec) (r : Req) (c : Option Compression) (tr : Bool) :
+    encodeReq k r c tr = encodeFrameOf k (encodeBody r) (opcode r) c tr := rfl
+
+/-- **adapter_batch_refines.** Whenever the adapter path produces a BATCH body it is byte for byte the body of the
+plain BATCH request with the same statements and value lists (so `frame_valid`, `parse_encode`, `compressed_body` apply
+to it), and every row had exactly as many values as its statement's context has columns. -/
+theorem adapter_batch_refines (ty : BatchType) (stmts : List (BatchStmt × Nat)) (vals : List (List RawVal))
+    (c : Consistency) (sc : Option SerialConsistency) (ts : Option Int64) (b : List UInt8)
+    (h : encodeBatchA ty stmts vals c sc ts = .ok b) :
+    encodeBody (.batch ty (stmts.map Prod.fst) vals c sc ts) = .ok b ∧ stmts.map Prod.snd = vals.map List.length :=
+  encodeBatchA_refines h
+
+/-- **adapter_batch_parse.** The frame of an adapter-built BATCH reads back (independent parser) to the statements in
+order, each with its own values, and the batch options. -/
+theorem adapter_batch_parse (k : Codec) (ty : BatchType) (stmts : List (BatchStmt × Nat)) (vals : List (List RawVal))
+    (c : Consistency) (sc : Option SerialConsistency) (ts : Option Int64) (tr : Bool) (f : List UInt8)
+    (h : encodeFrameOf k (encodeBatchA ty stmts vals c sc ts) Generated.requestOpcode_Batch none tr = .ok f)
+    (hlen : f.length - 9 < 2 ^ 32) :
+    parseReq false f = some ⟨false, tr, 0,
+      .batch ty (((stmts.map Prod.fst).map viewStmt).zip vals) c sc (ts.map Int64.toInt)⟩ := by
+  cases hb : encodeBatchA ty stmts vals c sc ts with
+  | error e => rw [hb] at h; simp [encodeFrameOf] at h
+  | ok b =>
+    obtain ⟨hbody, _⟩ := encodeBatchA_refines hb
+    have hreq : encodeReq k (.batch ty (stmts.map Prod.fst) vals c sc ts) none tr = .ok f := by
+      rw [encodeReq_eq, hbody, ← hb]; exact h
+    exact parse_encode k _ tr f hreq hlen
+
+/-- **adapter_batch_mismatch_refused.** More (or fewer) value lists than statements, more than 65535 statements, a row
+that does not match its context, or an oversize id / row: the adapter path answers an error, never a frame with the
+surplus dropped. -/
+theorem adapter_batch_mismatch_refused (ty : BatchType) (stmts : List (BatchStmt × Nat)) (vals : List (List RawVal))
+    (c : Consistency) (sc : Option SerialConsistency) (ts : Option Int64)
+    (h : stmts.length ≠ vals.length ∨ stmts.map Prod.snd ≠ vals.map List.length ∨
+      ¬ Representable (.batch ty (stmts.map Prod.fst) vals c sc ts)) :
+    ∃ e, encodeBatchA ty stmts vals c sc ts = .error e := by
+  cases hb : encodeBatchA ty stmts vals c sc ts with
+  | error e => exact ⟨e, rfl⟩
+  | ok b =>
+    exfalso
+    obtain ⟨hbody, hctx⟩ := encodeBatchA_refines hb
+    have hrep := (rdBody_encodeBody hbody).1
+    rcases h with h | h | h
+    · have := hrep.2.1; simp at this; exact h this
+    · exact h hctx
+    · exact h hrep
+
+example : (match encodeBatchA .logged [(.query [0x78], 0), (.prepared [1, 2], 2)] [[], [.val [0], .null], []] .one none none,
+      encodeBatchA .logged [(.query [0x78], 0), (.prepared [1, 2], 2)] [[], [.val [0], .null]] .one none none with
+    | .error (.batchMismatch 3 2), .ok _ => true | _, _ => false) = true := by decide +kernel
+
 -- non-vacuity: a 65536-byte id is refused, a 65535-byte id is accepted; a count mismatch is refused both ways
 example : (match encodeBody (.execute (List.replicate 65536 0) none ⟨.one, none, none, none, none, false, []⟩) with
     | .error .executeStatementId => true | _ => false) = true := by decide +kernel
